@@ -297,6 +297,7 @@ impl Property for C07 {
             note: "c07".into(),
             decoy_in_cwd: false,
             echo_mode: false,
+            extra: Default::default(),
         };
         let xobs = run_xargs(&xs, ctx);
         rep.executions += 1;
